@@ -158,6 +158,8 @@ structure Cfg (D : Type) where
   pedantic : Bool
   /-- every non-control opcode: opcode, inline operand bytes, (value stack, data) ↦ new (value stack, data) or error -/
   sem : Nat → List Nat → List Int × D → Except Err (List Int × D)
+  /-- `Engine::axis_count` (number of variation axes of the font; 0 for a static font) -/
+  axisCount : Nat := 0
 
 def Cfg.code {D} (c : Cfg D) (prog : Nat) : Array Nat :=
   if prog = 0 then c.font else if prog = 1 then c.cv else c.glyph
@@ -342,6 +344,11 @@ def doDef {D} (c : Cfg D) (s : St D) (isFunction : Bool) (key : Int) : Option (E
 def isUnknownOpcode (op : Nat) : Bool :=
   op = 0x28 || op = 0x7B || op = 0x83 || op = 0x84 || op = 0x8F || op = 0x90 || (0x93 ≤ op && op ≤ 0xAF)
 
+/-- opcodes that end in `op_unknown` for a font with `axisCount` axes: the unassigned opcodes, and GETVARIATION (0x91) /
+    GETDATA (0x92) of a font without variation axes (engine/misc.rs `op_getvariation`, `op_getdata`) -/
+def isUnknownFor (axisCount op : Nat) : Bool :=
+  isUnknownOpcode op || (axisCount = 0 && (op = 0x91 || op = 0x92))
+
 /-- the control opcodes handled by the machine itself -/
 def isControlOpcode (op : Nat) : Bool :=
   op = 0x1B || op = 0x1C || op = 0x2A || op = 0x2B || op = 0x2C || op = 0x2D || op = 0x58 || op = 0x59
@@ -419,7 +426,7 @@ def dispatch {D} (c : Cfg D) (s : St D) (op : Nat) (operands : List Nat) : Optio
   else if op = 0x2C then opDef c s true
   else if op = 0x89 then opDef c s false
   else if op = 0x2D then some (leave s) -- ENDF
-  else if isUnknownOpcode op then some (doCall s false 1 (op : Int))
+  else if isUnknownFor c.axisCount op then some (doCall s false 1 (op : Int))
   else some (opData c s op operands)
 
 /-- One iteration of the `while let Some(ins) = self.decode()` loop of `Engine::run`. -/
